@@ -357,8 +357,25 @@ fn chain_case(n: usize, shape: usize) -> TreeCase {
 
 /// the last file ends inside a brace group: a \read of it is an error, it is kept out of the state search
 /// (a drain would die on it) and covered by the flat family
-const STREAM_FILES: [(&str, &str); 9] = [("fa", ""), ("fb", "a"), ("fc", "a\n"), ("fd", "a\nb"), ("fe", "{a\nb}"), ("ff", "a}b\nc"), ("fg", "a\n\n"), ("fi", " x \n%\ny"), ("fh", "{a")];
-const XS_FILES: usize = 8;
+/// fj..fm begin with a line that delivers no token (comment only; under \endlinechar=-1 also a line of
+/// an ignored character and an empty line): a \read of such a line is an empty token list, and the
+/// line end must still be reported to \read (seeded regression C19-e)
+const STREAM_FILES: [(&str, &str); 13] = [
+    ("fa", ""),
+    ("fb", "a"),
+    ("fc", "a\n"),
+    ("fd", "a\nb"),
+    ("fe", "{a\nb}"),
+    ("ff", "a}b\nc"),
+    ("fg", "a\n\n"),
+    ("fi", " x \n%\ny"),
+    ("fj", "%c\na\n"),
+    ("fk", "%c\n%d\na"),
+    ("fl", "\u{0}\na"),
+    ("fm", "\na"),
+    ("fh", "{a"),
+];
+const XS_FILES: usize = 12;
 const TERMINAL: [&str; 14] = ["p", "q{", "r}", "s", "t}u", "v", "w", "p", "q{", "r}", "s", "t}u", "v", "w"];
 
 #[derive(Clone, Copy, Debug, PartialEq)]
@@ -430,14 +447,23 @@ struct ModelRun {
     x: Option<Vec<TokV>>,
     y: Option<Vec<TokV>>,
     p: Printed,
+    /// a \read delivered the empty token list (a line without tokens)
+    empty_read: bool,
 }
 impl ModelRun {
-    fn new(eof: Eof) -> ModelRun {
-        ModelRun { m: ReadMachine::new(model_cfg(), eof, &TERMINAL), x: None, y: None, p: Printed { out: String::new(), dead: None } }
+    fn new(eof: Eof, no_elc: bool) -> ModelRun {
+        let mut cfg = model_cfg();
+        if no_elc {
+            cfg.end_line_char = None;
+        }
+        ModelRun { m: ReadMachine::new(cfg, eof, &TERMINAL), x: None, y: None, p: Printed { out: String::new(), dead: None }, empty_read: false }
     }
     fn read(&mut self, s: i64, into_y: bool) {
         match self.m.read(s) {
             ReadOutcome::Toks(t) => {
+                if t.is_empty() {
+                    self.empty_read = true;
+                }
                 self.p.out.push_str(&readtoks::show_toks(&t));
                 if into_y {
                     self.y = Some(t)
@@ -554,15 +580,17 @@ fn show_printed(p: &Printed) -> String {
 }
 
 /// One history: returns the implementation fingerprint when everything is explained and the run is alive.
-fn check_history(idx: u64, h: &[Act], obs: &[i64], with_drain: bool, acc: &mut Acc) -> Option<Fp> {
-    let prog: String = std::iter::once("\\scrollmode ".to_string()).chain(h.iter().map(|a| a.text())).chain(std::iter::once("%".to_string())).collect();
+fn check_history(idx: u64, h: &[Act], obs: &[i64], with_drain: bool, no_elc: bool, acc: &mut Acc) -> Option<Fp> {
+    // the whole program is one line that is already loaded when \endlinechar changes; the files, the
+    // terminal lines and the drain program are loaded afterwards
+    let prog: String = std::iter::once(if no_elc { "\\scrollmode \\endlinechar=-1 ".to_string() } else { "\\scrollmode ".to_string() }).chain(h.iter().map(|a| a.text())).chain(std::iter::once("%".to_string())).collect();
     let drain = drain_text(obs);
-    let case = || json!({"kind": "history", "actions": h.iter().map(|a| a.json()).collect::<Vec<_>>(), "observed_streams": obs, "with_drain": with_drain, "program": prog,
+    let case = || json!({"kind": "history", "actions": h.iter().map(|a| a.json()).collect::<Vec<_>>(), "observed_streams": obs, "with_drain": with_drain, "no_endlinechar": no_elc, "program": prog,
         "legend": "output of the history: T/F = \\ifeof answers, [c/cat] = tokens stored by \\read; drain (run on the same VM afterwards) = tokens of \\x | E/O (\\ifeof true/false) for streams 0..15 | per observed stream five times: '.' if \\ifeof, else the tokens of one more \\read and ','"});
     acc.eval();
     acc.traces_validated += 1;
-    let mut mt = ModelRun::new(Eof::Tex);
-    let mut ma = ModelRun::new(Eof::ClosesWithLastLine);
+    let mut mt = ModelRun::new(Eof::Tex, no_elc);
+    let mut ma = ModelRun::new(Eof::ClosesWithLastLine, no_elc);
     for a in h {
         mt.act(a);
         ma.act(a);
@@ -589,6 +617,9 @@ fn check_history(idx: u64, h: &[Act], obs: &[i64], with_drain: bool, acc: &mut A
     }
     if mt.m.range_errors > 0 {
         acc.count("stream_number_out_of_range");
+    }
+    if mt.empty_read {
+        acc.count("read_of_line_without_tokens");
     }
     {
         let open: Vec<usize> = (0..16).filter(|s| mt.m.is_open(*s)).collect();
@@ -767,7 +798,7 @@ fn main() {
     ctx.assume("read-stream histories run in \\scrollmode (TeX: interaction > nonstop, terminal reads allowed, recoverable errors do not stop); stream numbers outside 0..15 are the recoverable 'bad number' error and mean 0 for \\openin/\\closein/\\ifeof (§435), the terminal for \\read (§482)");
     ctx.assume("the terminal is a script of non-empty lines owned by the harness; the process's stdin is never reachable (vtex::ScriptTerminal, stdin closed)");
     ctx.assume("a \\read that meets the end of the file inside a brace group is an error in TeX (§486, recoverable, unbalanced result) and a fatal error in the crate: judged as 'error', the history is a dead end");
-    ctx.assume("\\endlinechar and the category codes keep their initial values during a run (their interaction with the scanner is C03)");
+    ctx.assume("\\endlinechar and the category codes do not change while streams are in use (their interaction with the scanner is C03); the read families run twice: with the initial \\endlinechar=13 and with \\endlinechar=-1 set in the prelude, on the program line that is already loaded");
 
     let quick = ctx.quick();
     let acts = actions(quick, XS_FILES);
@@ -781,7 +812,7 @@ fn main() {
             Some("history") => {
                 let h: Vec<Act> = case["actions"].as_array().map(|a| a.iter().map(Act::from_json).collect()).unwrap_or_default();
                 let obs: Vec<i64> = case["observed_streams"].as_array().map(|a| a.iter().map(|x| x.as_i64().unwrap_or(0)).collect()).unwrap_or_default();
-                check_history(0, &h, &obs, case["with_drain"].as_bool().unwrap_or(true), &mut acc);
+                check_history(0, &h, &obs, case["with_drain"].as_bool().unwrap_or(true), case["no_endlinechar"].as_bool().unwrap_or(false), &mut acc);
             }
             _ => {
                 eprintln!("replay: unknown case kind");
@@ -880,39 +911,42 @@ fn main() {
             }
         });
     }
-    // F6a: every short history without merging, including the file that ends inside a group
-    {
+    // F6: read streams, once with the initial \\endlinechar and once with \\endlinechar=-1 from the prelude on
+    for (suffix, no_elc) in [("", false), ("-noelc", true)] {
+        // F6a: every short history without merging, including the file that ends inside a group
         let flat = actions(quick, STREAM_FILES.len());
         let k = flat.len() as u64;
         let len = ctx.pick(2u32, 3u32);
         let o = &obs;
         let f = &flat;
-        ctx.family("read-flat", &format!("every history of length <= {len} over {k} actions (the alphabet of read-xs plus \\openin of a file that ends inside a brace group), no merging, output of the history only"), vcore::strings_upto(k, len), |i, acc| {
+        let elc_text = if no_elc { "\\endlinechar=-1" } else { "\\endlinechar=13" };
+        ctx.family(&format!("read-flat{suffix}"), &format!("{elc_text}; every history of length <= {len} over {k} actions (the alphabet of read-xs plus \\openin of a file that ends inside a brace group), no merging, output of the history only"), vcore::strings_upto(k, len), |i, acc| {
             let hist: Vec<Act> = vcore::nth_string(k, i).into_iter().map(|j| f[j as usize]).collect();
-            check_history(i, &hist, o, false, acc);
+            check_history(i, &hist, o, false, no_elc, acc);
         });
-    }
-    // F6: read streams, explicit-state search
-    if ctx.wants("read-xs") {
+        // F6b: explicit-state search
+        let fam = format!("read-xs{suffix}");
+        if !ctx.wants(&fam) {
+            continue;
+        }
         let t = std::time::Instant::now();
-        let depth = ctx.pick(6usize, 8usize);
+        let depth = if no_elc { ctx.pick(5usize, 7usize) } else { ctx.pick(6usize, 8usize) };
         let deadline = std::time::Instant::now() + std::time::Duration::from_secs_f64(ctx.remaining_s().min(ctx.pick(60.0, 3000.0)));
         let init = Fp { drain: "<initial>".into(), terminal_pos: 0 };
         let a = &acts;
-        let o = &obs;
         let (mut acc, stats) = vcore::xs::bfs(a.len(), depth, ctx.pick(400_000, 20_000_000), ctx.threads, deadline, init, |h, acc| {
             let hist: Vec<Act> = h.iter().map(|i| a[*i as usize]).collect();
-            check_history(u64::MAX, &hist, o, true, acc)
+            check_history(u64::MAX, &hist, o, true, no_elc, acc)
         });
-        acc.sample(0, || json!({"xs": {"depth_completed": stats.depth_completed, "frontier_sizes": stats.frontier_sizes, "states": stats.states, "actions": a.iter().map(|x| x.text()).collect::<Vec<_>>()}}));
+        acc.sample(0, || json!({"xs": {"family": fam, "depth_completed": stats.depth_completed, "frontier_sizes": stats.frontier_sizes, "states": stats.states, "actions": a.iter().map(|x| x.text()).collect::<Vec<_>>()}}));
         ctx.extra(
-            "xs_read_streams",
+            &format!("xs_read_streams{suffix}"),
             json!({"depth_completed": stats.depth_completed, "depth_bound": depth, "frontier_sizes": stats.frontier_sizes, "capped": stats.capped, "actions": a.len(),
             "fingerprint": "implementation-observable state: the tokens of \\x, the \\ifeof answer of all 16 streams, and for every stream of the alphabet the full sequence of remaining \\read results obtained by draining it (\\ifeof/\\read up to 5 times) on the same VM after the history, plus the number of terminal lines consumed"}),
         );
         ctx.push_family(
-            "read-xs",
-            &format!("BFS to depth {depth} over {} actions (\\openin s=f for s in {:?} and 9 files + a missing one, \\openin 16/-1, \\read / \\ifeof / \\closein on those streams and on 16, -1), states merged on the drained implementation state", a.len(), o),
+            &fam,
+            &format!("{elc_text}; BFS to depth {depth} over {} actions (\\openin s=f for s in {:?} and {XS_FILES} files + a missing one, \\openin 16/-1, \\read / \\ifeof / \\closein on those streams and on 16, -1), states merged on the drained implementation state", a.len(), o),
             stats.capped.is_none(),
             stats.capped.clone(),
             t.elapsed().as_secs_f64(),
@@ -938,6 +972,7 @@ fn main() {
     ctx.require("read_from_terminal", "a \\read went to the terminal");
     ctx.require("stream_number_out_of_range", "a stream number outside 0..15 was used");
     ctx.require("two_streams_open", "two streams are open at the same time");
+    ctx.require("read_of_line_without_tokens", "a \\read meets a line that delivers no token (comment-only line; empty or ignored-only line without end-line character) and stores the empty list");
     ctx.require("history_ends_in_fatal_error", "a history dies (terminal exhausted or file ended inside a group)");
     ctx.finish("file trees: every tree of the stated shapes (non-trivial = a file is opened or an \\endinput executed); read streams: every history of the action alphabet up to the depth bound, states merged on the drained implementation state (non-trivial = opens an existing file and reads); both compared with reftex::readtoks after every history");
 }
